@@ -63,8 +63,17 @@ def cases(draw, tier):
             # `results = first(...)` kept in a variable of the caller (an iterator that is kept *and* abandoned by `break`
             # is not told so by Python: closing it is then the caller's job - not generated)
             op['keep'] = True
+    wrapped = op
+    if draw(st.integers(0, 3)) == 0:
+        # the caller is torn out of collect() / its loop over first() by an `until` around it, and goes on afterwards
+        g = draw(st.sampled_from([0.25, 0.75, 1.25, 2.75, 4.25]))
+        wrapped = {'op': 'until', 'notif': ['delay', g], 'children': [], 'body': [op]}
+        if draw(st.booleans()):
+            # ... or by the failure of a task in a scope of its own around the call (the caller handles that failure)
+            wrapped = {'op': 'scope', 'name': 'G', 'catch': True, 'body': [op], 'children': [
+                {'name': 'gf', 'steps': [{'op': 'sleep', 'd': g}, {'op': 'raise', 'eid': 900, 'cls': 'K'}]}]}
     caller = {'name': 'cl', 'steps': ([{'op': 'sleep', 'd': draw(st.sampled_from([0, 0.5, 1]))}] if draw(st.booleans()) else [])
-              + [op, {'op': 'sleep', 'd': 1}, {'op': 'sleep', 'd': 6}]}
+              + [wrapped, {'op': 'sleep', 'd': 1}, {'op': 'sleep', 'd': 6}]}
     other = {'name': 'ot', 'steps': [{'op': 'sleep', 'd': 1}, {'op': 'sleep', 'd': 1}]}
     if draw(st.integers(0, 3)) == 0:
         # an independent second caller of first() at the same time: two iterations must not get in each other's way
@@ -120,17 +129,31 @@ def judge(out, case, it, oc, exc, ctx):
                 got2, want2, ctx))
         out.features.add('two_callers')
     cl = S.acts['cl']
-    sidx = next(i for i, s in enumerate(cl['steps']) if s['op'] in ('collect', 'first'))
+    sidx = next(i for i, s in enumerate(cl['steps']) if s['op'] in ('collect', 'first', 'until', 'scope'))
     node = cl['steps'][sidx]
+    opidx = (sidx,)
+    guard_leave = None
+    if node['op'] in ('until', 'scope'):
+        if len(node['body']) != 1 or node['body'][0]['op'] not in ('collect', 'first'):
+            raise InvalidCase('guard')
+        guard_leave = next((e for e in per.get('cl', ()) if e[2] == (sidx,) and e[3] == 'leave'), None)
+        node = node['body'][0]
+        opidx = (sidx, 'b', 0)
+        out.features.add('caller_in_until')
     acts = node['acts']
     names = [a['name'] for a in acts]
     n = len(acts)
-    es = [e for e in per.get('cl', ()) if e[2] == (sidx,)]
+    es = [e for e in per.get('cl', ()) if e[2] == opidx]
     begin = [e for e in es if e[3] == 'begin']
     if not begin:
         return
     t0 = begin[0][4]
     cancelled = any(f[4] not in (None, 'SUCCESS', 'FAILED', 'CANCELLED') for f in it.fault_log)
+    torn_out = guard_leave is not None and not any(
+        e[3] in ('ok', 'got_exc', 'valueerror') or (node['op'] == 'collect' and e[3] == 'got') for e in es if e[0] < guard_leave[0])
+    if torn_out:
+        cancelled = True
+        out.features.add('caller_torn_out_by_until')
     tc = None
     if 'kl' in S.acts:
         kl = S.acts['kl']['steps']
@@ -304,6 +327,8 @@ def judge(out, case, it, oc, exc, ctx):
             out.features.add('early_break')
         if len({c[0] for c in ct}) < len(ct):
             out.features.add('ties')
+    if torn_out:
+        end_ev = guard_leave       # the caller left its block: nothing of the activities may run from here on
     # ---- aborted activities run no code afterwards, and their clean-up ran by then
     if end_ev is not None:
         for nm in names:
